@@ -368,11 +368,13 @@ def regenerate(run):
 
 TECHNIQUE = ("Coq proof over a Gallina kernel regenerated from interface.fromFunction by a fail-closed ast "
              "translator; CPython layout assumption and correspondence checked by vm_compute on real defs")
-LEVEL_TEXT = ("Machine-checked theorems (Properties/C18.v, 6 theorems, closed under the global context) state, for every "
+LEVEL_TEXT = ("Machine-checked theorems (Properties/C18.v, 8 theorems, closed under the global context) state, for every "
               "valid signature with any number of positional-only / positional / keyword-only parameters, any "
               "defaults, optional * and **, any locals and any imlevel (clamped to the positional count), that the "
               "kernel translated from the current source returns exactly the signature's description, that "
-              "getSignatureString renders it, and that fromMethod strips the first parameter.  The kernel is "
+              "getSignatureString renders it, that fromMethod strips the first parameter, that the description is "
+              "faithful (equal descriptions => equal remaining positional parameters with their defaults, equal * / ** "
+              "names, equal attributes) and that keyword-only parameters and locals never influence it.  The kernel is "
               "regenerated and the proofs re-checked on every run; generated defs are executed in both modes and "
               "judged in Coq against inspect.signature.")
 LEVEL_NOTE = ("Trusted: Coq kernel/vm_compute; the translator and the Python-primitive semantics of Model/PyFunc.v "
